@@ -136,6 +136,8 @@ type gen struct {
 	calls      int    // user calls generated in the current body / main (bounded)
 	undef      string // name of a function that is never defined
 	undefCalls int
+	initForms  bool // some variable definition has an init form that is not a literal
+	hasLet     bool // some function definition is wrapped in a let (closure)
 }
 
 var pool = []string{"a", "b", "c"}
@@ -409,7 +411,46 @@ func (g *gen) defun(f *fn) *node {
 	for i, p := range f.params {
 		ps[i] = Y(p)
 	}
-	return L(append([]*node{Y("defun"), F(f.name), L(ps...)}, g.body(f)...)...)
+	d := L(append([]*node{Y("defun"), F(f.name), L(ps...)}, g.body(f)...)...)
+	if g.r(100) < 7 {
+		// the definition inside a let that binds names the bodies use as free variables (the shared names, one of
+		// the usual parameter names): the function gets the let's scope as its closure; a later top-level
+		// definition of the same function must not keep it
+		g.hasLet = true
+		var bs []*node
+		for _, v := range g.shared {
+			if g.r(100) < 70 {
+				bs = append(bs, L(Y(v), I(int64(200+g.r(100)))))
+			}
+		}
+		if len(bs) == 0 || g.r(100) < 30 {
+			bs = append(bs, L(Y(common.Pick(g.ctx.Rng, pool)), I(int64(300+g.r(100)))))
+		}
+		return L(Y("let"), L(bs...), d)
+	}
+	return d
+}
+
+// varDef: (defvar|defparameter v init): a literal, or a form that is evaluated when the definition is - in
+// Code.Compile's first loop for a compiled code object - with the function definitions made so far
+func (g *gen) varDef(kinds []string, v string) *node {
+	var init *node
+	switch x := g.r(100); {
+	case x < 78:
+		init = I(int64(10 + g.r(90)))
+	case x < 92 && len(g.fns) > 0:
+		g.initForms = true
+		g.calls = 0
+		init = g.userCall(g.fns[g.r(len(g.fns))], nil, false, 1)
+		if g.r(3) == 0 {
+			init = call(common.Pick(g.ctx.Rng, []string{"+", "emit", "list", "values"}), init)
+		}
+	default:
+		g.initForms = true
+		g.calls = 0
+		init = g.exprT(nil, false, 1, g.r(3) > 0)
+	}
+	return L(Y(common.Pick(g.ctx.Rng, kinds)), Y(v), init)
 }
 
 func (g *gen) mainForm() *node {
@@ -522,6 +563,16 @@ type outcome struct {
 }
 
 func runCode(scope *slip.Scope, code slip.Code) (out outcome) {
+	return observe(func() slip.Object { return code.Eval(scope, nil) })
+}
+
+// compileCode: Code.Compile evaluates the top-level definitions - the init forms of defvar/defparameter included -
+// so it has an outcome too: nil, or the condition that left it, and what the init forms emitted.
+func compileCode(code slip.Code) (out outcome) {
+	return observe(func() slip.Object { code.Compile(); return nil })
+}
+
+func observe(f func() slip.Object) (out outcome) {
 	trace = trace[:0]
 	res, shown := "", ""
 	func() {
@@ -530,7 +581,7 @@ func runCode(scope *slip.Scope, code slip.Code) (out outcome) {
 				res, shown = classify(r)
 			}
 		}()
-		v := code.Eval(scope, nil)
+		v := f()
 		a, b := gvalue(v)
 		res, shown = "Val ("+a+")", b
 	}()
@@ -582,18 +633,18 @@ func (h *hist) load(cid int, forms []*node) {
 }
 
 func (h *hist) compile(cid int) {
-	rec := opRec{Op: "compile", Code: cid}
-	func() {
-		defer func() {
-			if r := recover(); r != nil {
-				h.failed = true
-				_, rec.Outcome = classify(r)
-			}
-		}()
-		h.codes[cid].Compile()
-	}()
+	ch := make(chan outcome, 1)
+	go func() { ch <- compileCode(h.codes[cid]) }()
+	var o outcome
+	select {
+	case o = <-ch:
+	case <-time.After(10 * time.Second):
+		o = outcome{gal: "(Err EOther, [])", show: "!timeout"}
+		h.failed = true
+	}
 	h.gops = append(h.gops, fmt.Sprintf("OCompile %d", cid))
-	h.recs = append(h.recs, rec)
+	h.gobs = append(h.gobs, o.gal)
+	h.recs = append(h.recs, opRec{Op: "compile", Code: cid, Outcome: o.show})
 }
 
 func (h *hist) run(cid int, isMain bool) {
@@ -638,6 +689,8 @@ type program struct {
 	mains      []*node
 	bareGlobal bool
 	undefCalls int
+	initForms  bool
+	hasLet     bool
 }
 
 func rename(n *node, from, to string) *node {
@@ -683,7 +736,7 @@ func genProgram(ctx *common.Ctx, prefix string) *program {
 	// definitions (they are permuted together with the functions: before and after them) does not matter
 	for _, v := range g.shared {
 		if ctx.Rng.Chance(75) {
-			p.defs = append(p.defs, L(Y(common.Pick(ctx.Rng, []string{"defvar", "defvar", "defparameter"})), Y(v), I(int64(10+ctx.Rng.Intn(90)))))
+			p.defs = append(p.defs, g.varDef([]string{"defvar", "defvar", "defparameter"}, v))
 		}
 	}
 	rounds := ctx.Rng.Intn(4) // up to three redefinitions of a function, with callers compiled in between
@@ -692,7 +745,7 @@ func genProgram(ctx *common.Ctx, prefix string) *program {
 		var is []int
 		for _, v := range g.shared {
 			if ctx.Rng.Chance(35) {
-				ds = append(ds, L(Y(common.Pick(ctx.Rng, []string{"defvar", "defparameter", "defparameter"})), Y(v), I(int64(10+ctx.Rng.Intn(90)))))
+				ds = append(ds, g.varDef([]string{"defvar", "defparameter", "defparameter"}, v))
 			}
 		}
 		for i, f := range g.fns {
@@ -714,6 +767,8 @@ func genProgram(ctx *common.Ctx, prefix string) *program {
 	}
 	p.bareGlobal = g.bareGlobal
 	p.undefCalls = g.undefCalls
+	p.initForms = g.initForms
+	p.hasLet = g.hasLet
 	return p
 }
 
@@ -958,6 +1013,21 @@ func Run(ctx *common.Ctx) {
 		// and compiled code).  In a redefine-between-runs group the evaluations after the last round of
 		// redefinitions are compared with the one-object variant that makes all definitions in order first.
 		var ref string
+		if base.initForms {
+			// the init form of a variable is evaluated where the definition stands: with another order of the
+			// definitions it legitimately sees other function definitions (and emits at another moment); such
+			// programs are judged by the model only
+			groupMains = nil
+			ctx.Hist("programs-with:init-form")
+		}
+		if base.hasLet {
+			ctx.Hist("programs-with:defun-inside-let")
+			if tmpl == tRedefine {
+				// Code.Compile makes the top-level definitions of a code object before the let forms are evaluated:
+				// with several definitions of one function in one compiled object the last one made differs
+				groupMains = nil
+			}
+		}
 		if base.bareGlobal {
 			// programs with a bare non-parameter body symbol take part in the direct comparison since repo fix
 			// C08-4 (the symbol is looked up at call time, whatever existed when the defun was evaluated)
@@ -983,10 +1053,145 @@ func Run(ctx *common.Ctx) {
 			}
 		}
 	}
+	// ---- systematic blocks (enumerated, not random) -------------------------------------------------
+	for _, sc := range systematic() {
+		caseNo++
+		prefix := fmt.Sprintf("q%ds", caseNo)
+		h := &hist{scope: slip.NewScope(), next: 1, codes: map[int]slip.Code{}}
+		for _, st := range sc.steps {
+			switch st.op {
+			case "load":
+				fs := make([]*node, len(st.forms))
+				for i, f := range st.forms {
+					fs[i] = rename(f, "zz", prefix)
+				}
+				h.load(st.cid, fs)
+			case "compile":
+				h.compile(st.cid)
+			default:
+				h.run(st.cid, false)
+			}
+		}
+		ctx.Hist("template:systematic-" + sc.block)
+		if h.failed {
+			ctx.Violate("reading, compiling or evaluating an enumerated program failed or did not terminate", h.recs, nil, nil)
+			continue
+		}
+		terms = append(terms, fmt.Sprintf("(%s,\n    %s)", common.GList(h.gops), common.GList(h.gobs)))
+		descs = append(descs, map[string]any{"template": "systematic-" + sc.block, "what": sc.what, "history": h.recs})
+		ctx.Meta.Evaluations += len(h.gobs)
+		distinct[strings.ReplaceAll(strings.Join(h.gops, ";"), prefix, "")] = true
+	}
 	ctx.Meta.DistinctNontrivial = len(distinct)
-	ctx.Meta.Rule = "programs of 2-5 functions (names sharing prefixes with def*/let*/set*/if/lambda/quote/progn forms, 15% of the occurrences of a function name written in another case) over +,-,<,list,rest,progn,if,case,floor,values,nil,t,emit, defvar/defparameter of 1-2 variables whose names are also parameters of some functions (defined before and after the functions, redefined between runs), 22% of the bodies bare symbols (parameter / shared name / other), list-valued forms - often empty list objects - as tests of if (35%), branches, clause forms, arguments (multiple-value producers in every argument position, as branches, bodies and main forms) with calls in argument position to functions of lower level and recursive calls (to any function, mutual recursion included) under (if (< n 1) ..); 0-3 rounds of redefinitions; 1-3 main forms; random definition order; seven history templates over code objects (one of them the REPL/load discipline: each form read, compiled and evaluated on its own) (load, Code.Compile, Code.Eval k=1..5 times, definitions before/after/between the main forms, redefinition between runs, fresh re-reading) plus, for every redefinition history, the variant with all definitions and redefinitions in one code object (direct comparison of the final meaning); 1.5% of the sub-expressions calls of a never-defined function with emitting / failing arguments (lookup time of an undefined operator); wrong argument counts in 7% of the calls; evaluations = evaluations of a code object; distinct = distinct histories up to the name prefix"
+	ctx.Meta.Rule = "programs of 2-5 functions (names sharing prefixes with def*/let*/set*/if/lambda/quote/progn forms, 15% of the occurrences of a function name written in another case) over +,-,<,list,rest,progn,if,case,floor,values,nil,t,emit, defvar/defparameter of 1-2 variables whose names are also parameters of some functions (defined before and after the functions, redefined between runs), 22% of the bodies bare symbols (parameter / shared name / other), list-valued forms - often empty list objects - as tests of if (35%), branches, clause forms, arguments (multiple-value producers in every argument position, as branches, bodies and main forms) with calls in argument position to functions of lower level and recursive calls (to any function, mutual recursion included) under (if (< n 1) ..); 0-3 rounds of redefinitions; 1-3 main forms; random definition order; seven history templates over code objects (one of them the REPL/load discipline: each form read, compiled and evaluated on its own) (load, Code.Compile, Code.Eval k=1..5 times, definitions before/after/between the main forms, redefinition between runs, fresh re-reading) plus, for every redefinition history, the variant with all definitions and redefinitions in one code object (direct comparison of the final meaning); 1.5% of the sub-expressions calls of a never-defined function with emitting / failing arguments (lookup time of an undefined operator); 22% of the variable definitions with an init FORM (call of a program function, arithmetic, emit) evaluated where the definition stands - by Code.Compile for a compiled object; 7% of the function definitions inside a let binding the shared / parameter names (closure), redefined at top level and back; Code.Compile is an observed operation (result or condition + emitted values); ENUMERATED blocks: init-timing = {defvar, defparameter} x variable definition before / between / after two definitions of the function its init form calls x 3 init shapes x {list form, compiled, compiled and run twice} (54 histories); closure-redefinition = {let->top, top->let, let->let', top->top, let->let} x global variable defined or not x caller defined before or after x second definition's object compiled or not x body (+ n x) / bare x (80 histories); wrong argument counts in 7% of the calls; evaluations = evaluations or compilations of a code object; distinct = distinct histories up to the name prefix"
 	header := "From Coq Require Import List ZArith String.\nFrom C08 Require Import Model Spec Corr.\nImport ListNotations.\nOpen Scope string_scope.\nOpen Scope list_scope.\n"
 	footer := "Definition res := Eval vm_compute in check_all cases.\nPrint res.\nDefinition gcount := Eval vm_compute in guard_count cases.\nPrint gcount.\nDefinition outside := Eval vm_compute in outside_count cases.\nPrint outside.\nDefinition deviations := Eval vm_compute in deviation_count cases.\nPrint deviations.\nDefinition lookuplate := Eval vm_compute in late_count cases.\nPrint lookuplate.\n"
 	ctx.WriteShards("cases", header, "case", footer, terms, descs, 16)
 	ctx.ReplayKnownLisp()
+}
+
+// ---- enumerated histories -------------------------------------------------------------------------
+
+type sstep struct {
+	op    string
+	cid   int
+	forms []*node
+}
+
+type scase struct {
+	block, what string
+	steps       []sstep
+}
+
+func dfun(name string, params []string, body ...*node) *node {
+	ps := make([]*node, len(params))
+	for i, p := range params {
+		ps[i] = Y(p)
+	}
+	return L(append([]*node{Y("defun"), F(name), L(ps...)}, body...)...)
+}
+
+// systematic enumerates two small families of histories completely (names carry "zz", replaced per case).
+func systematic() (out []scase) {
+	f, g, v := "zzf", "zzg", "zzv"
+	// init-timing: where does the init form of a variable see which definition of the function it calls?
+	for _, kind := range []string{"defvar", "defparameter"} {
+		for pos := 0; pos < 3; pos++ {
+			for ii, init := range []*node{ucall(f, I(5)), call("+", I(1), ucall(f, I(5))), call("emit", ucall(f, I(5)))} {
+				for mode := 0; mode < 3; mode++ {
+					forms := []*node{dfun(f, []string{"n"}, call("+", Y("n"), I(2))), dfun(f, []string{"n"}, call("+", Y("n"), I(3)))}
+					vd := L(Y(kind), Y(v), init)
+					forms = append(forms[:pos], append([]*node{vd}, forms[pos:]...)...)
+					forms = append(forms, call("list", Y(v), ucall(f, I(5))))
+					steps := []sstep{{op: "load", cid: 0, forms: forms}}
+					if mode > 0 {
+						steps = append(steps, sstep{op: "compile", cid: 0})
+					}
+					steps = append(steps, sstep{op: "run", cid: 0})
+					if mode == 2 {
+						steps = append(steps, sstep{op: "run", cid: 0})
+					}
+					out = append(out, scase{block: "init-timing",
+						what:  fmt.Sprintf("%s at position %d of two definitions of the function its init form (shape %d) calls, mode %d", kind, pos, ii, mode),
+						steps: steps})
+				}
+			}
+		}
+	}
+	// closure-redefinition: a definition replaces the closure of the previous one
+	x := v
+	letdef := func(k int64, body *node) *node {
+		return L(Y("let"), L(L(Y(x), I(k))), dfun(f, []string{"n"}, body))
+	}
+	for pi, pair := range [][2]string{{"L1", "T"}, {"T", "L1"}, {"L1", "L2"}, {"T", "T"}, {"L1", "L1"}} {
+		for glob := 0; glob < 2; glob++ {
+			for callerFirst := 0; callerFirst < 2; callerFirst++ {
+				for comp := 0; comp < 2; comp++ {
+					for bi := 0; bi < 2; bi++ {
+						body := func() *node {
+							if bi == 0 {
+								return call("+", Y("n"), Y(x))
+							}
+							return Y(x)
+						}
+						mk := func(kind string) *node {
+							switch kind {
+							case "L1":
+								return letdef(10, body())
+							case "L2":
+								return letdef(20, body())
+							}
+							return dfun(f, []string{"n"}, body())
+						}
+						caller := dfun(g, []string{"n"}, ucall(f, Y("n")))
+						main := func() *node { return call("list", ucall(f, I(1)), ucall(g, I(1))) }
+						var o0 []*node
+						if callerFirst == 1 {
+							o0 = append(o0, caller)
+						}
+						o0 = append(o0, mk(pair[0]))
+						if callerFirst == 0 {
+							o0 = append(o0, caller)
+						}
+						o0 = append(o0, main())
+						var o1 []*node
+						if glob == 1 {
+							o1 = append(o1, L(Y("defvar"), Y(x), I(1)))
+						}
+						o1 = append(o1, mk(pair[1]), main())
+						steps := []sstep{{op: "load", cid: 0, forms: o0}, {op: "run", cid: 0}, {op: "load", cid: 1, forms: o1}}
+						if comp == 1 {
+							steps = append(steps, sstep{op: "compile", cid: 1})
+						}
+						steps = append(steps, sstep{op: "run", cid: 1}, sstep{op: "load", cid: 2, forms: []*node{main()}}, sstep{op: "run", cid: 2},
+							sstep{op: "run", cid: 0}, sstep{op: "run", cid: 2})
+						out = append(out, scase{block: "closure-redefinition",
+							what:  fmt.Sprintf("definitions %s then %s (pair %d), global variable %d, caller first %d, second object compiled %d, body %d", pair[0], pair[1], pi, glob, callerFirst, comp, bi),
+							steps: steps})
+					}
+				}
+			}
+		}
+	}
+	return
 }
